@@ -12,15 +12,22 @@ package main
 //	        client gets each of its replies exactly once.
 
 import (
+	"context"
+	"errors"
 	"fmt"
 	"net"
 	"os"
 	"strings"
+	"sync/atomic"
 	"time"
 
 	"github.com/miekg/dns"
 	"github.com/semihalev/sdns/config"
+	"github.com/semihalev/sdns/internal/contextutil"
+	"github.com/semihalev/sdns/internal/mock"
 	"github.com/semihalev/sdns/internal/verif/vlib"
+	"github.com/semihalev/sdns/middleware"
+	"github.com/semihalev/sdns/middleware/cache"
 	"github.com/semihalev/sdns/middleware/resolver"
 	"github.com/semihalev/sdns/server"
 )
@@ -95,7 +102,10 @@ func execBurst(f []string) vlib.Res {
 	switch f[1] {
 	case "new":
 		return vlib.Res{Impl: "ok"}
-	case "send":
+	case "send", "flush":
+		// send:  the staged burst goes through sendGroup.
+		// flush: the burst is staged on a worker and the request served next leaves
+		//        the fast path (FlushStaged): every staged reply must leave NOW.
 		if len(f) != 3 {
 			return vlib.Res{Impl: "bad-op"}
 		}
@@ -130,10 +140,20 @@ func execBurst(f []string) vlib.Res {
 			want[d][id] = true
 			ports = append(ports, socks[d].LocalAddr().(*net.UDPAddr).Port)
 		}
-		if !server.VerifC11SendBurst(ids, ports) {
+		still := 0
+		if f[1] == "flush" {
+			n, ok := server.VerifC11FlushStaged(ids, ports)
+			if !ok {
+				return vlib.Res{Impl: "unavailable", Tags: "no-batch-tx"}
+			}
+			still = n
+		} else if !server.VerifC11SendBurst(ids, ports) {
 			return vlib.Res{Impl: "unavailable", Tags: "no-batch-tx"}
 		}
 		or := "ok"
+		if still != 0 {
+			or = fmt.Sprintf("FAIL sig=burst/flush/staged-replies-held-across-slow-path still=%d burst=%s", still, f[2])
+		}
 		total := 0
 		for _, d := range []string{"a", "b", "c"} {
 			c := socks[d]
@@ -161,7 +181,7 @@ func execBurst(f []string) vlib.Res {
 					or = fmt.Sprintf("FAIL sig=burst/send/duplicate-reply client=%s id=%d n=%d burst=%s", d, id, got[id], f[2])
 				}
 				if got[id] == 0 && or == "ok" {
-					or = fmt.Sprintf("FAIL sig=burst/send/reply-lost client=%s id=%d burst=%s", d, id, f[2])
+					or = fmt.Sprintf("FAIL sig=burst/%s/reply-lost client=%s id=%d burst=%s", f[1], d, id, f[2])
 				}
 			}
 			for id, n := range got {
@@ -171,10 +191,194 @@ func execBurst(f []string) vlib.Res {
 			}
 		}
 		tags := ""
-		if strings.Contains(f[2], "x") && len(dests) > 1 {
+		if (strings.Contains(f[2], "x") && len(dests) > 1) || f[1] == "flush" {
 			tags = "nt"
 		}
 		return vlib.Res{Impl: fmt.Sprintf("datagrams=%d", total), Oracle: or, Tags: tags}
 	}
 	return vlib.Res{Impl: "bad-op"}
+}
+
+// ---------------------------------------------------------------- eff / proc
+
+// fakeCtx is a context with exactly the stated observable state.
+type fakeCtx struct {
+	context.Context
+	deadline    time.Time
+	hasDeadline bool
+	err         error
+	done        chan struct{}
+}
+
+func (c *fakeCtx) Deadline() (time.Time, bool) { return c.deadline, c.hasDeadline }
+func (c *fakeCtx) Err() error                  { return c.err }
+func (c *fakeCtx) Done() <-chan struct{} {
+	if c.done == nil {
+		return nil
+	}
+	return c.done
+}
+
+func errName(err error) string {
+	switch {
+	case err == nil:
+		return "none"
+	case errors.Is(err, context.DeadlineExceeded):
+		return "deadline"
+	case errors.Is(err, context.Canceled):
+		return "canceled"
+	}
+	return "other"
+}
+
+// execEff: eff <none|deadline|canceled> <hasDeadline t/f> <clockPast t/f> — the real contextutil.EffectiveError.
+func execEff(f []string) vlib.Res {
+	if len(f) != 4 {
+		return vlib.Res{Impl: "bad-op"}
+	}
+	c := &fakeCtx{Context: context.Background(), hasDeadline: f[2] == "t"}
+	switch f[1] {
+	case "none":
+	case "deadline":
+		c.err = context.DeadlineExceeded
+	case "canceled":
+		c.err = context.Canceled
+	default:
+		return vlib.Res{Impl: "bad-op"}
+	}
+	if f[3] == "t" {
+		c.deadline = time.Now().Add(-time.Millisecond)
+	} else {
+		c.deadline = time.Now().Add(time.Hour)
+	}
+	got := errName(contextutil.EffectiveError(c))
+	// property: a request is over as soon as its deadline has been reached or its context says so
+	over := c.err != nil || (c.hasDeadline && f[3] == "t")
+	or := "ok"
+	if over != (got != "none") {
+		or = fmt.Sprintf("FAIL sig=eff/expiry-not-reported over=%v got=%s", over, got)
+	}
+	return vlib.Res{Impl: got, Oracle: or, Tags: "nt"}
+}
+
+type countingDown struct{ calls atomic.Int32 }
+
+func (d *countingDown) Name() string { return "c11down" }
+func (d *countingDown) ServeDNS(ctx context.Context, ch *middleware.Chain) {
+	d.calls.Add(1)
+	req := ch.Request.Msg()
+	m := new(dns.Msg)
+	m.SetReply(req)
+	m.RecursionAvailable = true
+	rr, _ := dns.NewRR(req.Question[0].Name + " 60 IN A 192.0.2.99")
+	m.Answer = []dns.RR{rr}
+	_ = ch.Writer.WriteMsg(m)
+	ch.Cancel()
+}
+
+var procSerial int
+
+// execProc: proc <leader|follower> <live|late|expired|lazy|canceled> — one request
+// through the REAL Cache.ServeDNS (chain: cache, answering downstream) on the miss
+// path with the given context; a follower is parked behind an installed dedup leader
+// that finishes 60 ms later (live/late: no usable Done channel) or is woken by its
+// own Done channel (expired/lazy/canceled).
+func execProc(f []string) vlib.Res {
+	if len(f) != 3 {
+		return vlib.Res{Impl: "bad-op"}
+	}
+	leader := f[1] == "leader"
+	if !leader && f[1] != "follower" {
+		return vlib.Res{Impl: "bad-op"}
+	}
+	base := os.Getenv("VERIF_DIR")
+	if base == "" {
+		base = "/verif"
+	}
+	c := cache.New(&config.Config{CacheSize: 1024})
+	defer c.Stop()
+	procSerial++
+	req := new(dns.Msg)
+	req.SetQuestion(fmt.Sprintf("p%d.proc.c11.test.", procSerial), dns.TypeA)
+	req.SetEdns0(1232, false)
+	past := time.Now().Add(-time.Millisecond)
+	soon := time.Now().Add(25 * time.Millisecond)
+	var ctx context.Context
+	var cancels []func()
+	expiredKind := false
+	switch f[2] {
+	case "live":
+		c2, cancel := context.WithTimeout(context.Background(), 10*time.Second)
+		ctx, cancels = c2, append(cancels, cancel)
+	case "late": // deadline reached on the clock, timer not fired: Err nil, Done never closes
+		d := past
+		if !leader {
+			d = soon // passes while the follower is parked
+		}
+		ctx, expiredKind = &fakeCtx{Context: context.Background(), deadline: d, hasDeadline: true}, true
+	case "expired":
+		c2, cancel := context.WithDeadline(context.Background(), past)
+		ctx, cancels, expiredKind = c2, append(cancels, cancel), true
+	case "lazy":
+		l := contextutil.WithLazyDeadline(context.Background(), past)
+		ctx, cancels, expiredKind = l, append(cancels, l.Cancel), true
+	case "canceled":
+		c2, cancel := context.WithCancel(context.Background())
+		cancel()
+		ctx = c2
+	default:
+		return vlib.Res{Impl: "bad-op"}
+	}
+	defer func() {
+		for _, fn := range cancels {
+			fn()
+		}
+	}()
+	down := &countingDown{}
+	w := mock.NewWriter("udp", "192.0.2.7:53000")
+	ch := middleware.NewChain([]middleware.Handler{c, down})
+	ch.Reset(w, req)
+	if leader {
+		ch.Next(ctx)
+	} else {
+		key := cache.CacheKey{Question: req.Question[0], CD: false}.Hash()
+		doneLeader, ok := cache.VerifC11DedupLeader(c, key)
+		if !ok {
+			return vlib.Res{Impl: "no-leader"}
+		}
+		fin := make(chan struct{})
+		go func() { defer close(fin); ch.Next(ctx) }()
+		select {
+		case <-fin: // woken by its own Done channel
+		case <-time.After(60 * time.Millisecond):
+		}
+		doneLeader()
+		select {
+		case <-fin:
+		case <-time.After(5 * time.Second):
+			return vlib.Res{Impl: "parked", Oracle: "FAIL sig=proc/follower/still-parked-after-leader-finished ctx=" + f[2], Tags: "nt"}
+		}
+	}
+	writes, out := 0, "none"
+	if w.Written() {
+		writes = 1
+		switch {
+		case w.Msg().Rcode == dns.RcodeServerFailure:
+			out = "servfail"
+		case w.Msg().Rcode == dns.RcodeSuccess && down.calls.Load() > 0:
+			out = "down"
+		default:
+			out = "other"
+		}
+	}
+	or := "ok"
+	switch {
+	case expiredKind && writes == 0:
+		or = fmt.Sprintf("FAIL sig=proc/%s/expired-query-got-no-reply ctx=%s", f[1], f[2])
+	case expiredKind && out != "servfail":
+		or = fmt.Sprintf("FAIL sig=proc/%s/expired-query-not-servfail ctx=%s out=%s down=%d", f[1], f[2], out, down.calls.Load())
+	case f[2] == "live" && (writes != 1 || out != "down"):
+		or = fmt.Sprintf("FAIL sig=proc/%s/live-query-not-answered out=%s", f[1], out)
+	}
+	return vlib.Res{Impl: fmt.Sprintf("writes=%d out=%s", writes, out), Oracle: or, Tags: "nt"}
 }
